@@ -170,6 +170,10 @@ theorem yields_bind {f : P α} {g : α → P β} {Q : β → Prop} (hg : ∀ a, 
 
 end P
 
+/-- bytes of an ASCII string (all names in the model are ASCII; the real bytes are compared by the
+    correspondence check) -/
+def asciiBytes (s : String) : Bytes := s.toList.map fun c => UInt8.ofNat c.toNat
+
 /-- zero padding -/
 def zeros (m : Nat) : Bytes := List.replicate m 0
 
